@@ -39,6 +39,9 @@ func tokCountLines(c *classifier.Classifier, b []byte) (n int, firstLine, lastLi
 	return len(toks), toks[0].Line, toks[len(toks)-1].Line, allUnknown
 }
 
+// c01Glue: plant every copy after the first on the line where the previous one ends
+var c01Glue bool
+
 func cmdC01(seed uint64, tier, outdir string) {
 	r := newRng(seed, "c01")
 	all := embeddedDocs()
@@ -85,23 +88,49 @@ func cmdC01(seed uint64, tier, outdir string) {
 			lineOff += strings.Count(ctx, "\n")
 		}
 		addCtx()
-		for _, d := range docs {
+		for di, d := range docs {
 			txt := string(d.text)
 			if !strings.HasSuffix(txt, "\n") {
 				txt += "\n"
+			}
+			if di > 0 {
+				// glue: the next copy is written, on one line, on the line where the previous copy ends (a one-line notice
+				// following a license after a couple of unrelated words) - only when flattening does not change its words
+				flat := strings.ReplaceAll(strings.TrimRight(txt, "\n"), "\n", " ") + "\n"
+				ntF, _, _, _ := tokCountLines(bc.c, []byte(flat))
+				ntO, _, _, _ := tokCountLines(bc.c, []byte(txt))
+				if c01Glue && ntF == ntO && ntF > 0 && !strings.Contains(txt, "-\n") {
+					cur := sb.String()
+					t := strings.TrimRight(cur, "\n")
+					lineOff -= len(cur) - len(t)
+					sb.Reset()
+					sb.WriteString(t + " zzqx zzqx ")
+					tokOff += 2
+					txt = flat
+				} else {
+					addCtx()
+				}
 			}
 			nt, fl, ll, _ := tokCountLines(bc.c, []byte(txt))
 			sb.WriteString(txt)
 			copies = append(copies, plantedCopy{d, tokOff, tokOff + nt - 1, lineOff + fl, lineOff + ll, nt})
 			tokOff += nt
 			lineOff += strings.Count(txt, "\n")
-			addCtx()
 		}
+		addCtx()
 		sb.WriteString(tailText)
 		data := []byte(sb.String())
+		if c01Glue {
+			// the construction is only meaningful when gluing did not change the words (it does when the line it
+			// continues is an ignorable notice line, a list-marker line, ...): the whole text must have the words of its parts
+			if ntAll, _, _, _ := tokCountLines(bc.c, data); ntAll != tokOff {
+				return
+			}
+		}
 		res := bc.c.Match(data)
 		cw.printf("%s thr=%v %s\n", label, bc.thr, quoteBytes(data, 300))
 		verdict := ""
+		cls := "-"
 		for _, cp := range copies {
 			if cp.ntoks < q {
 				continue
@@ -114,6 +143,12 @@ func cmdC01(seed uint64, tier, outdir string) {
 				}
 			}
 			if !found {
+				for _, o := range copies {
+					if o.start != cp.start && o.sl == o.el && cp.sl == cp.el && o.sl == cp.sl {
+						// two copies that both lie wholly on ONE line: line-granular overlap resolution keeps the longer (known finding)
+						cls = "two-copies-on-one-line"
+					}
+				}
 				verdict = fmt.Sprintf("copy of %s/%s/%s (tokens %d-%d, lines %d-%d, %d words, q=%d) not reported whole at 1.0: %s",
 					cp.doc.cat, cp.doc.name, cp.doc.variant, cp.start, cp.end, cp.sl, cp.el, cp.ntoks, q, fmtResults(res))
 				break
@@ -122,7 +157,7 @@ func cmdC01(seed uint64, tier, outdir string) {
 		if verdict == "" {
 			vw.printf("OK 1\n")
 		} else {
-			vw.printf("VIOL - %s\n", verdict)
+			vw.printf("VIOL %s %s\n", cls, verdict)
 		}
 	}
 	usable := func(d corpusDoc) bool {
@@ -144,6 +179,11 @@ func cmdC01(seed uint64, tier, outdir string) {
 			}
 		}
 		run(bc, docs, "embedded")
+		if k > 1 && i%4 == 1 {
+			c01Glue = true
+			run(bc, docs, "embedded-same-line")
+			c01Glue = false
+		}
 	}
 	// every threshold of a fine grid with a user-added document of exactly the minimum run length
 	// the property states for it (floor(t/(1-t)) words, 10 at 1.0), and one word more
@@ -186,6 +226,11 @@ func cmdC01(seed uint64, tier, outdir string) {
 			pick = append(pick, docs[r.intn(len(docs))])
 		}
 		run(bc, pick, "synthetic")
+		if len(pick) > 1 && pick[0].name != pick[1].name {
+			c01Glue = true
+			run(bc, pick, "synthetic-same-line")
+			c01Glue = false
+		}
 		// nested documents: a small exact copy, then one that shares text with a fuzzy superset of it
 		var na, nb *corpusDoc
 		for k := range docs {
